@@ -114,7 +114,7 @@ RandInstance(r) ==
 
 \* ------------------------------------------------------------- steps
 \* edits (change M); every other step is a public call that must leave M alone
-IsEdit(s) == s.op \in {"setbounds", "setobj", "setdir", "setobjdict"}
+IsEdit(s) == s.op \in {"setbounds", "setobj", "setdir", "setobjdict", "addrxn"}
 ApplyStep(m, s) ==
   CASE s.op = "setbounds" -> [m EXCEPT !.lb[s.r] = s.lb, !.ub[s.r] = s.ub]
     [] s.op = "setobj" -> [m EXCEPT !.c[s.r] = s.k]
@@ -122,6 +122,11 @@ ApplyStep(m, s) ==
     \* dictionary is empty (the direction stays)
     [] s.op = "setobjdict" -> [m EXCEPT !.c = [k \in 1..Len(m.c) |-> IF k = s.r THEN s.k ELSE IF k = s.r2 THEN s.k2 ELSE 0]]
     [] s.op = "setdir" -> [m EXCEPT !.dir = s.dir]
+    \* model.add_reactions([reverse copy of reaction r]): the stoichiometry of r negated, bounds (0, ub), no objective
+    \* term -- a structural edit (it closes a two-reaction cycle with r when r is internal)
+    [] s.op = "addrxn" -> [m EXCEPT !.rxns = Append(@, "R" \o ToString(Len(m.rxns) + 1)),
+                                    !.S = Append(@, [j \in 1..Len(m.mets) |-> 0 - m.S[s.r][j]]),
+                                    !.lb = Append(@, 0), !.ub = Append(@, s.ub), !.c = Append(@, 0)]
     [] OTHER -> m
 
 AllRxns(m) == [k \in 1..NR(m) |-> k]
@@ -172,6 +177,8 @@ DrawStep(r, m) ==
                      [op |-> "setobjdict", r |-> rr, k |-> Pick(<<0, 1, 0, -1>>, d[5]), r2 |-> (d[6] % n) + 1,
                       k2 |-> IF (d[6] % n) + 1 = rr THEN 0 ELSE Pick(<<0, 0, 2, 1>>, d[10])]
                 [] d[4] % 3 = 1 -> [op |-> "setobj", r |-> rr, k |-> Pick(<<1, 0, 2, -1>>, d[5])]
+                \* (C05: analyses called again after the network itself changed; at most 7 reactions)
+                [] Prop = "C05" /\ d[4] % 3 = 2 /\ d[9] % 2 = 0 /\ n < 7 -> [op |-> "addrxn", r |-> rr, ub |-> 1 + (d[10] % 2)]
                 [] OTHER -> [op |-> "setdir", dir |-> IF m.dir = "max" THEN "min" ELSE "max"]
       sub == LET keep == {k \in 1..n : d[5 + (k % 5)] % 3 # 0} \cup {rr} IN
              \* a subset in a rotated order
